@@ -58,7 +58,8 @@ class Family:
     def __init__(self, name, mc_module, trace_module, driver, rounds, owns=None, devs=True,
                  invariant="DesignOK", harness_args=None, rule_text="", assumptions=None,
                  trace_consts=None, needs_gts=False, shards=NCPU, case_key=None, mc_workers=NCPU,
-                 tags=None, dedupe=False, gen_invariant=None, thorough_args=None, mc_spec="Spec", gen_spec="Spec"):
+                 tags=None, dedupe=False, gen_invariant=None, thorough_args=None, mc_spec="Spec", gen_spec="Spec",
+                 case_fam=None):
         self.name = name
         self.mc_module = mc_module
         self.trace_module = trace_module
@@ -81,6 +82,7 @@ class Family:
         self.thorough_args = thorough_args or []
         self.mc_spec = mc_spec
         self.gen_spec = gen_spec
+        self.case_fam = case_fam
 
 
 def replay_cases(work, harness, fam, cases_file, tag, shards=None, extra_args=None):
@@ -178,6 +180,8 @@ def run_family(fam, prop, tier, seed, replay=None, extra_harness_args=None):
                 mc_states += s
                 mc_trans += t
             n, events, verdicts, drift, tstates = replay_cases(work, harness, fam, cases, "r%d" % i, extra_args=extra)
+            for v in verdicts:
+                v["_file"] = cases   # case ids need only be unique within a round
             mc_states += tstates
             mc_trans += tstates
             total_cases += n
@@ -195,6 +199,43 @@ def run_family(fam, prop, tier, seed, replay=None, extra_harness_args=None):
         return finish(fam, prop, tier, seed, listed, known, work, harness, all_verdicts, cov, t0, case_files, extra)
     finally:
         work.cleanup()
+
+
+_SINK = None   # when a list: finish() appends (coverage, violations, assumptions) instead of writing evidence
+
+
+def run_families(fams, prop, tier, seed, replay=None):
+    """Several generator/trace pairs deciding clauses of ONE property: run each, merge the evidence."""
+    global _SINK
+    t0 = time.time()
+    if replay:
+        with open(replay) as fh:
+            first = decode_case_line(fh.readline())
+        for fam in fams:
+            if fam.case_fam is None or first.get("fam") == fam.case_fam:
+                return run_family(fam, prop, tier, seed, replay)
+        raise Undecided("replay file belongs to no family of %s" % prop)
+    _SINK = []
+    try:
+        rc = 0
+        for fam in fams:
+            rc = max(rc, run_family(fam, prop, tier, seed))
+        parts = _SINK
+    finally:
+        _SINK = None
+    cov = dict(families=[dict(family=f.name, **c[0]) for f, c in zip(fams, parts)])
+    for k in ("states", "transitions", "cases", "events", "drift", "traces_validated_against_impl",
+              "verdicts_total", "verdicts_owned"):
+        cov[k] = sum(c[0].get(k, 0) for c in parts)
+    cov["samples"] = [x for c in parts for x in c[0].get("samples", [])[:2]]
+    cov["exhaustive"] = all(c[0].get("exhaustive", False) for c in parts)
+    cov["known_findings_met"] = sorted({d for c in parts for d in c[0].get("known_findings_met", [])})
+    cov["rule"] = " || ".join("%s: %s" % (f.name, c[0].get("rule", "")) for f, c in zip(fams, parts))
+    for c in cov["families"]:
+        c.pop("samples", None)
+    write_evidence(prop, tier, seed, cov, time.time() - t0, sum(c[1] for c in parts),
+                   assumptions=sorted({a for c in parts for a in c[2]}))
+    return rc
 
 
 def shrink(c, maxlist=4):
@@ -223,7 +264,8 @@ def finish(fam, prop, tier, seed, listed, known, work, harness, verdicts, cov, t
 
     confirmed = []
     for cid in sorted(viol)[:5]:
-        c = find_case(case_files, cid)
+        own = [v["_file"] for v in viol[cid] if "_file" in v][:1]
+        c = find_case(own + [f for f in case_files if f not in own], cid)
         if c is None:
             continue
         one = work.path("repro.ndjson")
@@ -255,5 +297,8 @@ def finish(fam, prop, tier, seed, listed, known, work, harness, verdicts, cov, t
         coverage["verdicts_total"] = len(verdicts)
         coverage["verdicts_owned"] = len(mine)
         coverage["rule"] = fam.rule_text
-        write_evidence(prop, tier, seed, coverage, time.time() - t0, len(confirmed), assumptions=fam.assumptions)
+        if _SINK is not None:
+            _SINK.append((coverage, len(confirmed), list(fam.assumptions)))
+        else:
+            write_evidence(prop, tier, seed, coverage, time.time() - t0, len(confirmed), assumptions=fam.assumptions)
     return 1 if confirmed else 0
